@@ -18,7 +18,16 @@ Writer half (proved in `E57/Proofs/LayoutWrite.lean`):
    on reading (there is nothing to read), kept visible.
 
 Reader half: `E57/Props/C03.lean` (`C03_reader_decodes_any_layout`).
-Composition (writer output is read back as the points added): `E57/Proofs/RoundTrip.lean` when present.
+Composition (`E57/Proofs/RoundTrip.lean`, namespace `E57.RoundTrip`):
+
+ * `C01_section_roundtrip`  valid prototype, fitting points, aligned well-formed page writer ⇒ the three
+   writer calls succeed and every healthy reader over every complete file that still contains the
+   section gets back exactly the points, in order, then `done`.
+ * `C01_file_roundtrip`, `C01_closed_file`  the same for any later writer state / after the top-level
+   finalize (`close_keeps_window`, `ew_finalize_abs`, `close_cursor`).
+ * `C01_no_room_statement_false` / `QR_new_empty_fails`  the one extra hypothesis (a packet-less section
+   must not be the very last bytes of the file) is necessary.
 -/
 import E57.Proofs.LayoutWrite
 import E57.Proofs.LayoutRead
+import E57.Proofs.RoundTrip
